@@ -319,6 +319,57 @@ example :
     openOnA (fRun .gt (ops ++ [.dial c2, .hs (.authA 12), .hs (.authB 22)])) = [c2] := by
   decide
 
+/-- **At every instant** of every run (late dials, election steps, failing ends — not only after one
+`commit` and not only at rest): the sessions a node holds authenticated and open all have ONE direction
+and ONE nonce, and on the node that accepted them there is AT MOST ONE. (On the initiating node several
+same-nonce dials may stay authenticated until the acceptor's choice closes all but one.) -/
+theorem at_every_instant_at_most_one_on_the_acceptor (o : Ordering) (ho : o ≠ .eq) (ops : List FOp)
+    (hA : ((fDials ops).map (·.idA)).Nodup) (hB : ((fDials ops).map (·.idB)).Nodup) :
+    ((∀ c ∈ activeA (fRun o ops), ∀ c' ∈ activeA (fRun o ops), c.aInit = c'.aInit ∧ nz c.nonce = nz c'.nonce) ∧
+     ((∀ c ∈ activeA (fRun o ops), c.aInit = false) → (activeA (fRun o ops)).length ≤ 1)) ∧
+    ((∀ c ∈ activeB (fRun o ops), ∀ c' ∈ activeB (fRun o ops), c.aInit = c'.aInit ∧ nz c.nonce = nz c'.nonce) ∧
+     ((∀ c ∈ activeB (fRun o ops), c.aInit = true) → (activeB (fRun o ops)).length ≤ 1)) :=
+  fRun_inv o ho ops hA hB
+
+/-- **One ready session per peer** (trace theorem). `node_session_ready` events are logged per node
+(`ROp.readyA` / `ROp.readyB`: emitted iff `is_elected`), interleaved arbitrarily with late dials,
+election steps and failing ends. Whenever the run is at rest: all the sessions reported ready on a
+node that are still alive are ONE session, and the live ready sessions of the two nodes are the two
+ends of ONE connection — the single link both nodes hold. (Earlier ready events of sessions closed
+since — a displaced link — remain in the log; they are not live.) -/
+theorem one_live_ready_session_per_peer (o : Ordering) (ho : o ≠ .eq) (ops : List ROp)
+    (hA : ((fDials (rProj ops)).map (·.idA)).Nodup) (hB : ((fDials (rProj ops)).map (·.idB)).Nodup)
+    (hq : hsQuiescent (rRun o ops).w = true) :
+    ∀ a ∈ liveReadyA (rRun o ops), ∀ b ∈ liveReadyB (rRun o ops),
+      ∃ c, openOnA (rRun o ops).w = [c] ∧ openOnB (rRun o ops).w = [c] ∧ a = c.idA ∧ b = c.idB := by
+  have hw := rRun_w o ops
+  have hq' : hsQuiescent (fRun o (rProj ops)) = true := by rw [← hw]; exact hq
+  obtain ⟨hAB, hlen⟩ := with_failures_never_two_links o ho (rProj ops) hA hB hq'
+  rw [← hw] at hAB hlen
+  intro a ha b hb
+  simp only [liveReadyA, liveReadyB, List.mem_filter, List.any_eq_true, Bool.and_eq_true, beq_iff_eq] at ha hb
+  obtain ⟨_, l, hl, hla, hlo⟩ := ha
+  obtain ⟨_, l', hl', hlb, hlo'⟩ := hb
+  have h1 : l.c ∈ openOnA (rRun o ops).w := List.mem_map.mpr ⟨l, List.mem_filter.mpr ⟨hl, hlo⟩, rfl⟩
+  have h2 : l'.c ∈ openOnB (rRun o ops).w := List.mem_map.mpr ⟨l', List.mem_filter.mpr ⟨hl', hlo'⟩, rfl⟩
+  rw [← hAB] at h2
+  match hL : openOnA (rRun o ops).w, hlen, h1, h2 with
+  | [c], _, h1, h2 =>
+    simp only [List.mem_singleton] at h1 h2
+    exact ⟨c, rfl, by rw [← hAB, hL], by rw [← hla, h1], by rw [← hlb, h2]⟩
+  | [], _, h1, _ => simp at h1
+  | _ :: _ :: _, hlen, _, _ => simp at hlen
+
+/-- non-vacuity: c0 comes up and is reported ready on both nodes, c1 (lower nonce) displaces it and is
+reported ready: the logs hold two events per node, the live ready session is c1's on both. -/
+example :
+    let c0 : Conn := ⟨false, 9, 10, 20⟩
+    let c1 : Conn := ⟨false, 3, 11, 21⟩
+    let s := rRun .gt [.f (.dial c0), .f (.hs (.authA 10)), .f (.hs (.authB 20)), .readyA 10, .readyB 20,
+      .f (.dial c1), .f (.hs (.authA 11)), .f (.hs (.authB 21)), .readyA 10, .readyA 11, .readyB 21, .f (.hs (.seeB 20))]
+    hsQuiescent s.w = true ∧ s.logA = [10, 11] ∧ s.logB = [20, 21] ∧ liveReadyA s = [11] ∧ liveReadyB s = [21] := by
+  decide
+
 /-- (tie of the `authA` step to the `NodeServerState` model that the correspondence run compares
 with `node.rs`) `commit_authenticated` on node A's state — one registered session per connection
 open on A — elects among exactly the step's `activeA (markA w a)` and names as losers exactly the
@@ -556,6 +607,8 @@ end C18
 #print axioms C18.handshake_comes_to_rest
 #print axioms C18.late_dials_converge
 #print axioms C18.with_failures_never_two_links
+#print axioms C18.at_every_instant_at_most_one_on_the_acceptor
+#print axioms C18.one_live_ready_session_per_peer
 #print axioms C18.commit_is_the_auth_step
 #print axioms C18.check_candidate_is_the_pre_step
 #print axioms C18.name_order_is_antisymmetric
